@@ -1,26 +1,25 @@
 SPECIFICATION Spec
 CONSTANTS
-  Confs <- Shapes
-  InitRegs <- MidRegs
-  ScopeNames = {"a", "ab"}
-  MaxScopeDepth = 2
+  Confs <- RefConfs
+  InitRegs <- RefRegs
+  ScopeNames = {"a", "b"}
+  MaxScopeDepth = 1
   MaxStack = 2
-  BindVals <- BV12
+  BindVals <- RefBindValsQuick
   MaxBindings = 2
   Enabled = {"Bind", "EnterScope", "ExitScope"}
-  NameOrder <- Names6
+  NameOrder <- NamesRefs
   HookUniverse = {}
   BindApis = {"tuple"}
   FreshConfs = {}
-  ConstNames = {}
-  BindFilter <- AnyBind
+  BindFilter <- RefFilterQuick
   ConstVals = {}
   QuerySpellings = {}
-  CallMaxExtra = 1
-  CallExtraKw = {"z"}
+  ConstNames = {}
+  CallMaxExtra = 0
+  CallExtraKw = {}
   CallsWithReq = FALSE
   DevKwEval = FALSE
-VIEW ViewStore
-INVARIANT C01_Deliver
-INVARIANT C01_NoLeak
+VIEW ViewStoreOrdered
+INVARIANT C04_Refs
 CHECK_DEADLOCK FALSE
